@@ -367,7 +367,7 @@ def run(tier):
                    "`nothing`; real programs evaluated by wf_program and replayed by the abstract VM inside Coq; non-trivial = "
                    "the template inserts data / defines or repeats / has python: paths that fire when enabled")
     if k_broken:
-        chk.correspondence_broken("K17 (wf_program / VM trace) on the C18 templates", k_detail, found)
+        chk.correspondence_broken("K17 (wf_program / VM trace / Context.evaluate / output functions) on the C18 templates", k_detail, found)
     chk.finish_proofs(found)
     chk.assumptions += [
         "html.parser is the arbiter of `markup` (skeleton) and of document equivalence; valueless attributes are read as name=name "
